@@ -34,6 +34,8 @@ type RunSpec struct {
 	// Multi: 0 = the real regular handler (one request); 2..3 = a harness handler whose single agent
 	// key (the repository's AgentKey) carries that many signing requests
 	Multi int
+	// Window: the validity window the CA stamps (see vh.CABehaviour.Window)
+	Window string
 	// Reuse: run with the real handler object (and forwarded connection) built by the latest earlier run
 	// of the real handler, whose configuration (validity, key slots) then applies.
 	Reuse bool
@@ -76,6 +78,7 @@ func gen(t *rapid.T) Case {
 		if i > 0 && r.Multi == 0 && r.Outcome != "noslot" {
 			r.Reuse = rapid.IntRange(0, 2).Draw(t, l+"Reuse") == 0
 		}
+		r.Window = rapid.SampledFrom([]string{"", "", "", "forever", "ahead", "huge"}).Draw(t, l+"Window")
 		nc := rapid.IntRange(0, r.NCerts+1).Draw(t, l+"NComments")
 		for j := 0; j < nc; j++ {
 			r.Comments = append(r.Comments, rapid.SampledFrom([]string{"", "TouchlessSSH", "ca-comment", "paranoids.regular"}).Draw(t, fmt.Sprintf("%sC%d", l, j)))
@@ -169,14 +172,14 @@ func exec(c Case) (vh.Outcome, error) {
 		if cerr != nil {
 			return out, vh.Errf("%s: configuration did not load: %v", where, cerr)
 		}
-		ca := &vh.FakeCA{Default: vh.CABehaviour{NCerts: r.NCerts, Comments: r.Comments}}
+		ca := &vh.FakeCA{Default: vh.CABehaviour{NCerts: r.NCerts, Comments: r.Comments, Window: r.Window}}
 		if r.Outcome == "caerr" {
 			ca.Default = vh.CABehaviour{Err: "verif: the CA is down"}
 			if r.Multi > 0 {
 				// the CA signs the earlier requests of the key and fails on the last one
 				ca.Script = nil
 				for j := 0; j < r.Multi-1; j++ {
-					ca.Script = append(ca.Script, vh.CABehaviour{NCerts: r.NCerts, Comments: r.Comments})
+					ca.Script = append(ca.Script, vh.CABehaviour{NCerts: r.NCerts, Comments: r.Comments, Window: r.Window})
 				}
 				ca.Script = append(ca.Script, vh.CABehaviour{Err: "verif: the CA is down"})
 			}
@@ -338,7 +341,7 @@ func equal(a, b []string) bool {
 	return true
 }
 
-const rule = "histories against one recording keyring agent: 0..5 pre-existing identities (plain RSA / ECDSA / Ed25519 keys and foreign certificates whose comments are near-misses of the handler label: other case, truncation, '-' for '.', missing first letter, 'private-key', empty, non-ASCII; comments containing the exact handler name are not generated), then 1..6 runs - of the real handler (a third of the later ones through the handler object and forwarded connection an earlier run built, class handler-object-reused), or (a quarter) of a harness handler whose one agent key (the repository's AgentKey) carries 2..3 signing requests - each succeeding or failing {agent refuses the challenge / handler rejects, no key slot configured, CA error - for several requests: on the last one, after the earlier ones were signed}, the CA returning 1..3 certificates with 0..n+1 comments (present / empty / containing the handler name), validity from {1, 2, 3599, 3600, 43200, 2^31, 315360000} or random in 1 s..10 y. Oracle after a successful run: the new private key and every returned certificate are listed, signing with each certificate yields a signature verifying under its key, every AddedKey the agent received has 0 < lifetime and lifetime >= validity, certificates of the earlier generation are absent, the certificate set is exactly foreign + this generation, every pre-existing identity is present with identical blob and comment; after a failing run the certificate set is unchanged. Non-trivial: >= 2 successful runs or a failure after a success, with >= 1 pre-existing identity."
+const rule = "histories against one recording keyring agent: 0..5 pre-existing identities (plain RSA / ECDSA / Ed25519 keys and foreign certificates whose comments are near-misses of the handler label: other case, truncation, '-' for '.', missing first letter, 'private-key', empty, non-ASCII; comments containing the exact handler name are not generated), then 1..6 runs - of the real handler (a third of the later ones through the handler object and forwarded connection an earlier run built, class handler-object-reused), or (a quarter) of a harness handler whose one agent key (the repository's AgentKey) carries 2..3 signing requests - each succeeding or failing {agent refuses the challenge / handler rejects, no key slot configured, CA error - for several requests: on the last one, after the earlier ones were signed}, the CA returning 1..3 certificates (validity window as requested, or without expiry, or valid until 2^63 s, or stamped by a CA clock 90 s ahead) with 0..n+1 comments (present / empty / containing the handler name), validity from {1, 2, 3599, 3600, 43200, 2^31, 315360000} or random in 1 s..10 y. Oracle after a successful run: the new private key and every returned certificate are listed, signing with each certificate yields a signature verifying under its key, every AddedKey the agent received has 0 < lifetime and lifetime >= validity, certificates of the earlier generation are absent, the certificate set is exactly foreign + this generation, every pre-existing identity is present with identical blob and comment; after a failing run the certificate set is unchanged. Non-trivial: >= 2 successful runs or a failure after a success, with >= 1 pre-existing identity."
 
 func TestC03Provision(t *testing.T) {
 	vh.Run(t, vh.Spec[Case]{Property: "C03", Name: "TestC03Provision", Rule: rule, Gen: gen, Exec: exec})
